@@ -3,6 +3,7 @@ package protocoltypes
 import (
 	crand "crypto/rand"
 	"encoding/hex"
+	"fmt"
 	"io"
 
 	"github.com/libp2p/go-libp2p/core/crypto"
@@ -17,6 +18,11 @@ import (
 func (m *Group) GetSigningPrivKey() (crypto.PrivKey, error) {
 	if len(m.Secret) == 0 {
 		return nil, errcode.ErrCode_ErrMissingInput
+	}
+
+	if len(m.Secret) != ed25519.SeedSize {
+		// ed25519.NewKeyFromSeed panics on any other length
+		return nil, errcode.ErrCode_ErrInvalidInput.Wrap(fmt.Errorf("invalid group secret size, expected %d got %d", ed25519.SeedSize, len(m.Secret)))
 	}
 
 	edSK := ed25519.NewKeyFromSeed(m.Secret)
